@@ -39,11 +39,19 @@ func (node *tagBlockNode) Execute(ctx *ExecutionContext, writer TemplateWriter) 
 	}
 
 	blockWrapper := blockWrappers[lenBlockWrappers-1]
+	// "block" names this block while its definition is rendered; an enclosing block's
+	// "block" must be back afterwards (a nested block shares the context)
+	outerBlock, hadOuterBlock := ctx.Private["block"]
 	ctx.Private["block"] = tagBlockInformation{
 		ctx:      ctx,
 		wrappers: blockWrappers[0 : lenBlockWrappers-1],
 	}
 	err := blockWrapper.Execute(ctx, writer)
+	if hadOuterBlock {
+		ctx.Private["block"] = outerBlock
+	} else {
+		delete(ctx.Private, "block")
+	}
 	if err != nil {
 		return err
 	}
